@@ -170,7 +170,8 @@ def structure_rules(ctx):
             return tuple(strip(x) if isinstance(x, tuple) else x for x in t_)
         leftover = any(s_ == q for s_ in subterms(strip(r)))
         ctx.check(not leftover and any(s_ == clamp for s_ in subterms(r)), "R04-scale-clamp", f.key, f, "f clamps q to [0,1] before use", "f uses q outside min(1).max(0): %s" % fmt(r)[:160])
-        agg = [bi for bi, blk in enumerate(new.blocks) for st in blk.stmts if st.k == "assign" and st.rv.k == "aggregate" and st.rv.j.get("adt") == "tdigest::%s" % k]
+        from .common import construction_blocks
+        agg = construction_blocks(ctx, new, "tdigest::%s" % k)
         okd = False
         if agg:
             facts = atomic_facts(new, prog, agg[0])
